@@ -1081,6 +1081,24 @@ def normalise_ifexp(tree):
                     mk = lambda v, st=st: ast.copy_location(ast.Assign(targets=[ast.Name(id=st.targets[0].id, ctx=ast.Store())], value=v), st)
                 elif isinstance(st, ast.Return) and isinstance(st.value, ast.IfExp):
                     mk = lambda v, st=st: ast.copy_location(ast.Return(value=v), st)
+                elif isinstance(st, ast.Expr) and isinstance(st.value, ast.Call) and pure(st.value.func) and not any(k.arg is None for k in st.value.keywords) \
+                        and sum(1 for a_ in st.value.args if isinstance(a_, ast.IfExp)) == 1:
+                    # f(.., A if C else B, ..) with a side-effect free callee and earlier arguments: the call is made once, with A or with B
+                    call_ = st.value
+                    k_ = next(i_ for i_, a_ in enumerate(call_.args) if isinstance(a_, ast.IfExp))
+                    if not all(pure(a_) for a_ in call_.args[:k_]) or any(isinstance(a_, ast.Starred) for a_ in call_.args):
+                        continue
+                    ie = call_.args[k_]
+
+                    def mk(v, st=st, call_=call_, k_=k_):
+                        c2 = _clone(call_)
+                        c2.args[k_] = v
+                        return ast.copy_location(ast.Expr(value=c2), st)
+                    new = ast.copy_location(ast.If(test=ie.test, body=[mk(ie.body)], orelse=[mk(ie.orelse)]), st)
+                    ast.fix_missing_locations(new)
+                    stmts[i] = new
+                    n += 1
+                    continue
                 else:
                     continue
                 ie = st.value
